@@ -76,6 +76,7 @@ class ClassInfo:
     methods: dict = field(default_factory=dict)  # name -> FuncInfo (getter for properties)
     setters: dict = field(default_factory=dict)  # name -> FuncInfo
     class_attrs: dict = field(default_factory=dict)  # name -> ast.expr (class-level assigns)
+    nested: dict = field(default_factory=dict)  # nested classes
     mro: list = field(default_factory=list)
 
     @property
@@ -211,9 +212,13 @@ class Repo:
                 out.append(n)
         return out
 
-    def _index_class(self, mi, node: ast.ClassDef):
-        ci = ClassInfo(f"{mi.name}.{node.name}", node.name, mi, node, [dotted(b) or "?" for b in node.bases])
-        mi.classes[node.name] = ci
+    def _index_class(self, mi, node: ast.ClassDef, outer=None):
+        prefix = outer.qualname if outer is not None else mi.name
+        ci = ClassInfo(f"{prefix}.{node.name}", node.name, mi, node, [dotted(b) or "?" for b in node.bases])
+        if outer is not None:
+            outer.nested[node.name] = ci
+        else:
+            mi.classes[node.name] = ci
         self.classes[ci.qualname] = ci
         self.classes_by_name.setdefault(node.name, []).append(ci)
         for st in node.body:
@@ -229,6 +234,8 @@ class Repo:
                     if ci.mangle(st.name) != st.name:
                         ci.methods[ci.mangle(st.name)] = fi
                     self.functions[fi.qualname] = fi
+            elif isinstance(st, ast.ClassDef):
+                self._index_class(mi, st, outer=ci)
             elif isinstance(st, ast.Assign):
                 for t in st.targets:
                     if isinstance(t, ast.Name):
@@ -405,6 +412,12 @@ class Repo:
             if name in c.class_attrs:
                 return c.class_attrs[name], c
         return None, None
+
+    def nested_class(self, ci, name):
+        for c in ci.mro:
+            if name in c.nested:
+                return c.nested[name]
+        return None
 
     def subclasses(self, ci: ClassInfo, strict=True):
         out = []
